@@ -1,4 +1,4 @@
 SPECIFICATION TraceSpec
-CONSTANT Active = "main"
+CONSTANT DefaultName = "default"
 POSTCONDITION Accepted
 CHECK_DEADLOCK FALSE
